@@ -182,7 +182,7 @@ def conforms_null(spec, t, v):
 @st.composite
 def specs(draw, rich=True, with_mutation=None, with_subscription=False, max_objects=3, defaults=True,
           input_defaults=True):
-    n_obj = draw(st.integers(1, max_objects))
+    n_obj = min(max_objects, draw(st.sampled_from([1, 2, 2, 3, 3, 3])))
     n_if = draw(st.integers(0, 2))
     n_enum = draw(st.integers(0, 2))
     n_in = draw(st.integers(0, 2)) if rich else 0
@@ -260,8 +260,13 @@ def specs(draw, rich=True, with_mutation=None, with_subscription=False, max_obje
     for n in ifaces:
         types[n] = {"kind": "interface", "name": n, "desc": draw(_DESC),
                     "fields": [gen_field("%s_f%d" % (n.lower(), i)) for i in range(draw(st.integers(1, 2)))]}
+    # abstract types with >= 2 runtime types are the interesting ones: choose how many objects implement each
+    implementers = {}
+    for i in ifaces:
+        k = min(n_obj, draw(st.sampled_from([1, 2, 2, 3, 3])))
+        implementers[i] = set(draw(st.permutations(objs))[:k])
     for n in objs:
-        impl = [i for i in ifaces if draw(st.booleans())]
+        impl = [i for i in ifaces if n in implementers[i]]
         fs = []
         for i in impl:
             for f in types[i]["fields"]:
@@ -271,6 +276,27 @@ def specs(draw, rich=True, with_mutation=None, with_subscription=False, max_obje
                 if t[0] != "nn" and draw(st.integers(0, 3)) == 0:
                     g["type"] = g["type"] + "!"
                 g["desc"] = draw(_DESC)
+                if defaults and g["args"] and draw(st.integers(0, 2)) == 0:
+                    # implementations may declare other defaults / python names for the interface's arguments
+                    for a in g["args"]:
+                        k = draw(st.integers(0, 3))
+                        if k == 0:
+                            v = gen_input_value(draw, spec, parse_t(a["type"]), 1)
+                            if conforms_null(spec, parse_t(a["type"]), v):
+                                a["default"] = v
+                        elif k == 1 and parse_t(a["type"])[0] != "nn":
+                            a.pop("default", None)
+                        elif k == 2:
+                            a["python_name"] = "py_%s_%s" % (n.lower(), a["name"])
+                if draw(st.integers(0, 5)) == 0:
+                    # ... and additional optional arguments
+                    base = draw(st.sampled_from(in_types))
+                    extra = {"name": "x%d" % len(g["args"]), "type": draw(st.sampled_from([base, "[%s]" % base])), "desc": None}
+                    if defaults and draw(st.booleans()):
+                        v = gen_input_value(draw, spec, parse_t(extra["type"]), 1)
+                        if conforms_null(spec, parse_t(extra["type"]), v):
+                            extra["default"] = v
+                    g["args"].append(extra)
                 fs.append(g)
         for i in range(draw(st.integers(1, 3))):
             fs.append(gen_field("%s_f%d" % (n.lower(), i)))
@@ -281,7 +307,7 @@ def specs(draw, rich=True, with_mutation=None, with_subscription=False, max_obje
             types[objs[0]]["interfaces"].append(i)
             types[objs[0]]["fields"] = [json.loads(json.dumps(f)) for f in types[i]["fields"]] + types[objs[0]]["fields"]
     if has_union:
-        members = [o for o in objs if draw(st.booleans())] or [objs[0]]
+        members = sorted(draw(st.permutations(objs))[:min(n_obj, draw(st.sampled_from([1, 2, 2, 3, 3])))])
         types["U0"] = {"kind": "union", "name": "U0", "members": members, "desc": draw(_DESC)}
     # roots
     qname = draw(st.sampled_from(["Query", "Query", "RootQ"]))
